@@ -332,6 +332,29 @@ def r5_limit(ctx, fn):
     st = [x for x in walk_shallow(init) if isinstance(x, ast.Assign) and any(is_self_attr(t, "_maxtasksperchild") for t in x.targets)]
     ctx.ob("C08.R5", PMP, "Multiprocessor.__init__", st[0] if st else init, "maxtasksperchild=0 means unlimited (None for the slice)",
            len(st) == 1 and unparse(st[0].value) == "maxtasksperchild or None", stmt="_maxtasksperchild")
+    # "(and CobaMultiprocessor around it)": the limit travels unchanged from CobaMultiprocessor's constructor to Multiprocessor -- constant folding of
+    # whatever the constructor stores, for the limits 1, 2, 3 and 7 (a normalisation may only touch values that mean "unlimited")
+    CMPF = "coba/multiprocessing.py"
+    cinit = ctx.fn(CMPF, "CobaMultiprocessor.__init__")
+    cst = [x for x in walk_shallow(cinit) if isinstance(x, ast.Assign) and any(is_self_attr(t, "_maxtasksperchild") for t in x.targets)]
+    okc = len(cst) == 1
+    folded = {}
+    if okc:
+        for k_ in (1, 2, 3, 7):
+            class Sub(ast.NodeTransformer):
+                def visit_Name(self, node):
+                    return ast.copy_location(ast.Constant(value=k_), node) if node.id == "maxtasksperchild" else node
+            e = Sub().visit(ast.parse(unparse(cst[0].value), mode="eval").body)
+            try:
+                folded[k_] = eval(compile(ast.fix_missing_locations(ast.Expression(e)), "<limit>", "eval"), {"__builtins__": {}})   # constant folding
+            except Exception:
+                folded[k_] = "?"
+        okc = all(folded[k_] == k_ for k_ in folded)
+    ctx.ob("C08.R5", CMPF, "CobaMultiprocessor.__init__", cst[0] if cst else cinit, "every positive maxtasksperchild is stored as given (1 included)", okc, detail={"stored for": folded}, stmt="CobaMultiprocessor limit stored")
+    cflt = ctx.fn(CMPF, "CobaMultiprocessor.filter")
+    mps = [c for c in ast.walk(cflt) if isinstance(c, ast.Call) and call_name(c) == "Multiprocessor"]
+    ctx.ob("C08.R5", CMPF, "CobaMultiprocessor.filter", mps[0] if mps else cflt, "Multiprocessor is built with the stored process count and limit", bool(mps) and all(
+        len(c.args) >= 3 and unparse(c.args[1]) == "self._processes" and unparse(c.args[2]) == "self._maxtasksperchild" for c in mps), stmt="limit handed to Multiprocessor")
     sl = ctx.fn("coba/pipes/filters.py", "Slice.filter")
     ok = any(isinstance(x, ast.Return) and unparse(x.value) == "islice(items, self._start, self._stop, self._step)" for x in walk_shallow(sl))
     ctx.ob("C08.R5", "coba/pipes/filters.py", "Slice.filter", sl, "Slice(None, n) passes at most n items", ok, stmt="Slice.filter")
@@ -475,9 +498,25 @@ def r9_no_blocking_receive(ctx, rule="C08.R9"):
                      for t, pol in all_guards(c, fn))
             ctx.ob(rule, LNS, f"ProcessLine.{name}", c, f"{pipe}.recv() happens only after {pipe}.poll() returned true", ok)
     ctx.floor(rule, "pipe receives in the parent-side methods of ProcessLine", n, 1)
+    # ... and the parent keeps its own write end open until it has read the report: with that end closed early an unreported death of the worker turns the
+    # empty pipe into EOF, poll() answers True and recv() raises EOFError inside the completion thread (the call then waits forever)
+    closes = []
+    for name, fn in sorted(cls.methods.items()):
+        if name == "run":
+            continue
+        for c in [c for c in ast.walk(fn) if isinstance(c, ast.Call) and call_tail(c) == "close" and isinstance(c.func, ast.Attribute)]:
+            tgt = unparse(c.func.value)
+            if "send" in tgt.lower():
+                closes.append((name, c))
+    for name, c in closes:
+        recvs = [r for r in ast.walk(cls.methods[name]) if isinstance(r, ast.Call) and call_tail(r) == "recv"]
+        ctx.ob(rule, LNS, f"ProcessLine.{name}", c, "the parent's write end of the report pipe is closed only where the report is read, after the read", bool(recvs) and all(r.lineno < c.lineno for r in recvs))
+    ctx.ob(rule, LNS, "ProcessLine", cls.node, "the report pipe's write end is closed somewhere on the parent side (no descriptor leak)", bool(closes), stmt="write end closed after the report")
 
 
 CONTROLS = [
+    ("limit of one child task read as unlimited", "coba/multiprocessing.py", M.replace_stmt("CobaMultiprocessor.__init__", M.text_has("self._maxtasksperchild ="), "self._maxtasksperchild = maxtasksperchild if maxtasksperchild > 1 else 0"), "C08.R5"),
+    ("parent closes its write end right after start", LNS, M.insert_after("ProcessLine.start", M.text_has("super().start()"), "send.close()"), "C08.R9"),
     ("report read without polling", LNS, M.replace_expr("ProcessLine._get_result", "self._recv.poll()", "True"), "C08.R9"),
     ("worker swallows EOFError of the filter", LNS, M.replace_stmt("ProcessLine.run", lambda st: isinstance(st, ast.Try),
         "try:\n    self._line.run()\nexcept (EOFError, BrokenPipeError):\n    ex, tb = None, None\nexcept Exception as e:\n    ex, tb = e, format_tb(e.__traceback__)\nexcept KeyboardInterrupt as e:\n    ex, tb = e, None\nelse:\n    ex, tb = None, None"), "C08.R7"),
